@@ -172,6 +172,10 @@ class Report:
             for cx in r.get("cex", []):
                 self._handle_cex(name, r["case"], cx, replay)
         tot["solver_s"] = round(tot["solver_s"], 3)
+        g["slowest_cases"] = sorted([(r.get("wall_s", 0), r.get("case")) for r in results], key=lambda x: -x[0])[:3]
+        if os.environ.get("VERIF_TIMES"):
+            for w, c in sorted([(r.get("wall_s", 0), r.get("case")) for r in results], key=lambda x: -x[0])[:8]:
+                print("   slow %-7.1fs %s" % (w, str(c)[:200]))
         g["totals"] = tot
         g["obligations"] = obl
         g["n_obligation_kinds"] = len(obl)
